@@ -1,109 +1,98 @@
-(* C12: generate_graphs -- vertex recurrence, edge assignment (carried while-loop), acyclicity *)
+(* C12 model: rex/artificial.py generate_graphs / augment_graphs on the 1/64 s lattice (times are Z ticks).
+   Transliteration of: the per-node timestamp scan, the edge assignment (carried while-loop), the masking of unsent /
+   unreceived messages, and augmentation (existing vertices / edges reused verbatim).  Proofs live in GenerateLaws.v. *)
 From Coq Require Import List Arith ZArith Bool Lia.
 Import ListNotations.
 Open Scope Z_scope.
 
-(* ---- per-node scan:  ts_end = ts_start + d;  ts_next = max(ts_end, ts_prev + 1/rate);  seq = -1 beyond the horizon ---- *)
 Record vtx := { v_seq : Z; v_start : Z; v_end : Z }.
-Fixpoint gen_vertices (P horizon : Z) (start : Z) (i : nat) (ds : list Z) : list vtx :=
+Record edg := { e_out : Z; e_in : Z; e_recv : Z }.
+
+(* ---- kernels (tied to the source by Ties/GenerateTie.v) ---- *)
+Definition next_start (P s e : Z) : Z := Z.max e (s + P).            (* ts_next = max(ts_end, ts_prev + 1/rate) *)
+Definition mask_seq (hor e i : Z) : Z := if hor <? e then -1 else i.  (* seq = where(ts_end > ts_max, -1, i) *)
+Definition fits (skip : bool) (t r : Z) : bool := if skip then r <? t else r <=? t.   (* is_larger *)
+Definition ceil_div (a b : Z) : Z := - ((- a) / b).
+Definition num_steps (T P : Z) : Z := ceil_div T P + 1.              (* ceil(ts_max_all * rate) + 1, rate = 64/P *)
+
+(* ---- per-node scan ---- *)
+Fixpoint gen_vertices (P hor start : Z) (i : nat) (ds : list Z) : list vtx :=
   match ds with [] => []
   | d :: ds =>
       let e := start + d in
-      {| v_seq := if horizon <? e then -1 else Z.of_nat i; v_start := start; v_end := e |}
-        :: gen_vertices P horizon (Z.max e (start + P)) (S i) ds
+      {| v_seq := mask_seq hor e (Z.of_nat i); v_start := start; v_end := e |}
+        :: gen_vertices P hor (next_start P start e) (S i) ds
   end.
 
-Lemma gen_vertices_nth P h : forall ds start i k v, nth_error (gen_vertices P h start i ds) k = Some v ->
-  v_end v = v_start v + nth k ds 0 /\ (v_seq v = Z.of_nat (i + k) \/ v_seq v = -1) /\ (v_seq v = -1 <-> h < v_end v) /\
-  (k = 0%nat -> v_start v = start).
-Proof.
-  induction ds as [|d ds IH]; intros start i k v H; [destruct k; discriminate|].
-  destruct k as [|k]; simpl in H.
-  - injection H as <-. simpl. destruct (Z.ltb_spec h (start + d)); repeat split; try lia.
-  - destruct (IH _ _ _ _ H) as (A & B & C & _).
-    split; [exact A|]. split; [replace (i + S k)%nat with (S i + k)%nat by lia; exact B|]. split; [exact C|lia].
-Qed.
-
-(* consecutive vertices never overlap and are at least one period apart *)
-Lemma gen_vertices_step P h : forall ds start i k v v',
-  nth_error (gen_vertices P h start i ds) k = Some v -> nth_error (gen_vertices P h start i ds) (S k) = Some v' ->
-  v_start v' = Z.max (v_end v) (v_start v + P).
-Proof.
-  induction ds as [|d ds IH]; intros start i k v v' H H'; [destruct k; discriminate|].
-  destruct k as [|k]; simpl in H, H'.
-  - injection H as <-. simpl. destruct ds as [|d' ds]; [discriminate|]. simpl in H'. injection H' as <-. reflexivity.
-  - eapply IH; eauto.
-Qed.
-Corollary gen_no_overlap P h ds start i k v v' : 
-  nth_error (gen_vertices P h start i ds) k = Some v -> nth_error (gen_vertices P h start i ds) (S k) = Some v' ->
-  v_end v <= v_start v' /\ v_start v + P <= v_start v'.
-Proof. intros H H'. rewrite (gen_vertices_step _ _ _ _ _ _ _ _ H H'). lia. Qed.
-
-(* ---- edge assignment: the carried while-loop of _scan_body_seq ---- *)
-(* is_larger := ts_start[seq] >= ts_recv (> with skip);  loop while not (is_larger or last) *)
-Definition larger (skip : bool) (starts : list Z) (s : nat) (recv : Z) : bool :=
-  let t := nth s starts 0 in if skip then recv <? t else recv <=? t.
-Fixpoint while_seq (fuel : nat) (skip : bool) (starts : list Z) (s : nat) (recv : Z) : nat :=
+(* ---- edge assignment: the carried while-loop of _scan_body_seq; an unsent message arrives at +inf (None) ---- *)
+Definition larger (skip : bool) (starts : list Z) (s : nat) (recv : option Z) : bool :=
+  match recv with None => false | Some r => fits skip (nth s starts 0) r end.
+Fixpoint while_seq (fuel : nat) (skip : bool) (starts : list Z) (s : nat) (recv : option Z) : nat :=
   match fuel with O => s
   | S fuel => if larger skip starts s recv || (length starts <=? S s)%nat then s
               else while_seq fuel skip starts (S s) recv end.
-Definition assign (skip : bool) (starts : list Z) (carry : nat) (recv : Z) : nat * Z :=
+Definition assign (skip : bool) (starts : list Z) (carry : nat) (recv : option Z) : nat * Z :=
   let s := while_seq (length starts) skip starts carry recv in
   (s, if larger skip starts s recv then Z.of_nat s else -1).
+Fixpoint scan_assign (skip : bool) (starts : list Z) (carry : nat) (recvs : list (option Z)) : list Z :=
+  match recvs with [] => []
+  | r :: rs => let '(s, si) := assign skip starts carry r in si :: scan_assign skip starts s rs end.
 
-(* the loop returns the first index >= carry whose start is at/after the arrival, if there is one *)
-Lemma while_seq_spec skip starts recv : forall fuel s,
-  (length starts <= s + fuel)%nat -> (s < length starts)%nat ->
-  let r := while_seq fuel skip starts s recv in
-  (s <= r < length starts)%nat /\ (forall j, (s <= j < r)%nat -> larger skip starts j recv = false) /\
-  (larger skip starts r recv = true \/ r = (length starts - 1)%nat).
-Proof.
-  induction fuel as [|fuel IH]; intros s Hf Hs; simpl.
-  - lia.
-  - destruct (larger skip starts s recv) eqn:El; simpl.
-    + repeat split; try lia. now left.
-    + destruct (Nat.leb_spec (length starts) (S s)).
-      * repeat split; try lia.
-      * destruct (IH (S s)) as (A & B & C); [lia|lia|]. repeat split; try lia; auto.
-        intros j Hj. destruct (Nat.eq_dec j s) as [->|]; [exact El|]. apply B. lia.
-Qed.
+Definition list_max (l : list Z) : Z := match l with [] => -1 | x :: xs => fold_left Z.max xs x end.
+Definition sent (v : vtx) : bool := negb (v_seq v =? -1).
+Definition recv_of (vc : vtx * Z) : option Z := if sent (fst vc) then Some (v_end (fst vc) + snd vc) else None.
+(* late = (where(seq_out == -1, inf, ts_end) > ts_max) *)
+Definition late (hor : Z) (v : vtx) : bool := if sent v then hor <? v_end v else true.
+Definition mk_edge (hor mx : Z) (x : vtx * Z * Z) : edg :=
+  let '(v, c, clipped) := x in
+  {| e_out := if late hor v then -1 else v_seq v;
+     e_in := if mx <? clipped then -1 else if late hor v then -1 else clipped;
+     e_recv := if sent v then v_end v + c else -1 |}.
+Definition gen_edges (skip : bool) (hor : Z) (outs : list vtx) (cs : list Z) (ins : list vtx) : list edg :=
+  let vc := combine outs cs in
+  let cl := scan_assign skip (map v_start ins) 0 (map recv_of vc) in
+  map (mk_edge hor (list_max (map v_seq ins))) (combine vc cl).
 
-(* with arrivals that do not overtake (carry is itself not past the first fitting step) the assignment is the
-   first receiver step starting at/after the arrival -- the hypothesis H_mono of the design, made explicit *)
-Theorem assign_first_step skip starts carry recv :
-  (carry < length starts)%nat ->
-  (forall j, (j < carry)%nat -> larger skip starts j recv = false) ->     (* nothing before the carry fits *)
-  let '(s, si) := assign skip starts carry recv in
-  (si = -1 /\ forall j, (j < length starts)%nat -> larger skip starts j recv = false) \/
-  (si = Z.of_nat s /\ larger skip starts s recv = true /\ forall j, (j < s)%nat -> larger skip starts j recv = false).
-Proof.
-  intros Hc Hbefore. unfold assign.
-  destruct (while_seq_spec skip starts recv (length starts) carry) as (A & B & C); [lia|lia|].
-  set (s := while_seq (length starts) skip starts carry recv) in *.
-  destruct (larger skip starts s recv) eqn:E.
-  - right. repeat split; auto. intros j Hj. destruct (le_lt_dec carry j); [apply B; lia|apply Hbefore; lia].
-  - left. split; [reflexivity|]. intros j Hj. destruct C as [C|C]; [congruence|].
-    destruct (le_lt_dec carry j).
-    + destruct (Nat.eq_dec j s) as [->|]; [exact E|apply B; lia].
-    + apply Hbefore; lia.
-Qed.
+(* ---- whole graphs: association lists keyed by node id / (sender id, receiver id) ---- *)
+Record nodecfg := { n_id : Z; n_P : Z; n_phase : Z; n_ds : list Z }.
+Record conncfg := { c_out : Z; c_in : Z; c_skip : bool; c_cs : list Z }.
+Definition vmap := list (Z * list vtx).
+Definition emap := list ((Z * Z) * list edg).
+Fixpoint lookupV (k : Z) (m : vmap) : option (list vtx) :=
+  match m with [] => None | (k', x) :: m => if k =? k' then Some x else lookupV k m end.
+Definition keq (a b : Z * Z) : bool := (fst a =? fst b) && (snd a =? snd b).
+Fixpoint lookupE (k : Z * Z) (m : emap) : option (list edg) :=
+  match m with [] => None | (k', x) :: m => if keq k k' then Some x else lookupE k m end.
 
-(* ---- acyclicity: a potential that strictly increases along every edge of a generated graph ---- *)
-Section Acyclic.
-Variables (V : Type) (tstart : V -> Z) (rank : V -> Z) (edge : V -> V -> Prop).
-(* what the generator guarantees for each kind of edge (stateful: period > 0; message: end <= recv <= start of the
-   consumer, strictly for skipped connections; non-skip connections respect a topological rank of the node graph,
-   which exists because BaseNode.phase rejects un-skipped cycles) *)
-Hypothesis edge_law : forall u v, edge u v ->
-  tstart u < tstart v \/ (tstart u = tstart v /\ rank u < rank v).
-Inductive tc : V -> V -> Prop := tc1 u v : edge u v -> tc u v | tcS u v w : edge u v -> tc v w -> tc u w.
-Lemma tc_potential u v : tc u v -> tstart u < tstart v \/ (tstart u = tstart v /\ rank u < rank v).
-Proof.
-  induction 1 as [u v H|u v w H _ IH]; [apply edge_law; exact H|].
-  apply edge_law in H. lia.
-Qed.
-Theorem gen_acyclic v : ~ tc v v.
-Proof. intros H. apply tc_potential in H. lia. Qed.
-End Acyclic.
-Print Assumptions assign_first_step.
-Print Assumptions gen_acyclic.
+Definition new_vertices (hor : Z) (n : nodecfg) : list vtx := gen_vertices (n_P n) hor (n_phase n) 0 (n_ds n).
+Definition add_node (hor : Z) (vs : vmap) (n : nodecfg) : vmap :=
+  match lookupV (n_id n) vs with Some _ => vs | None => vs ++ [(n_id n, new_vertices hor n)] end.
+Definition new_edges (hor : Z) (vs : vmap) (c : conncfg) : option (list edg) :=
+  match lookupV (c_out c) vs, lookupV (c_in c) vs with
+  | Some outs, Some ins => Some (gen_edges (c_skip c) hor outs (c_cs c) ins)
+  | _, _ => None end.      (* the code asserts both ends are present *)
+Definition add_conn (hor : Z) (vs : vmap) (es : emap) (c : conncfg) : emap :=
+  match lookupE (c_out c, c_in c) es with Some _ => es | None =>
+    match new_edges hor vs c with Some l => es ++ [((c_out c, c_in c), l)] | None => es end end.
+Definition graph := (vmap * emap)%type.
+Definition augment (hor : Z) (g : graph) (nodes : list nodecfg) (conns : list conncfg) : graph :=
+  let vs := fold_left (add_node hor) nodes (fst g) in
+  (vs, fold_left (add_conn hor vs) conns (snd g)).
+Definition generate (hor : Z) (nodes : list nodecfg) (conns : list conncfg) : graph := augment hor ([], []) nodes conns.
+(* augment_graphs: the horizon is the largest ts_end stored in the existing graph (ts_max = max(0, max ts_end)) *)
+Definition aug_horizon (vs : vmap) : Z :=
+  fold_left (fun acc kv => fold_left (fun a v => Z.max a (v_end v)) (snd kv) acc) vs 0.
+Definition augment_graphs (g : graph) (nodes : list nodecfg) (conns : list conncfg) : graph :=
+  augment (aug_horizon (fst g)) g nodes conns.
+
+(* ---- the property's edge clause as an independent specification ---- *)
+(* first receiver step starting at/after (strictly after with skip) the arrival *)
+Fixpoint first_fit (skip : bool) (starts : list Z) (i : nat) (r : Z) : option nat :=
+  match starts with [] => None | t :: ts => if fits skip t r then Some i else first_fit skip ts (S i) r end.
+Definition spec_seq_in (skip : bool) (hor : Z) (ins : list vtx) (v : vtx) (c : Z) : Z :=
+  if late hor v then -1 else
+  match first_fit skip (map v_start ins) 0 (v_end v + c) with
+  | Some s => if v_seq (nth s ins {| v_seq := -1; v_start := 0; v_end := 0 |}) =? -1 then -1 else Z.of_nat s
+  | None => -1 end.
+Definition spec_edges (skip : bool) (hor : Z) (outs : list vtx) (cs : list Z) (ins : list vtx) : list Z :=
+  map (fun vc => spec_seq_in skip hor ins (fst vc) (snd vc)) (combine outs cs).
